@@ -23,6 +23,11 @@ var migrations = [dbVersion]MigrationStep{
 	// Version 1 -> 2 (added TTL to nonces). Nonces that are too old to be
 	// accepted again are dropped, the others get their TTL: a request that was
 	// honoured before the upgrade must not be honoured again after it.
+	//
+	// Version 1 kept the nonce of every identity that ever sent a request,
+	// there can be more of them than one transaction can write: the step fills
+	// one transaction after the other. What an earlier one converted has a TTL
+	// (or is gone).
 	func(txn *badger.Txn) error {
 		if err := checkVersion(txn, 1); err != nil {
 			return err
@@ -32,6 +37,10 @@ var migrations = [dbVersion]MigrationStep{
 		it := txn.NewIterator(badger.DefaultIteratorOptions)
 		defer it.Close()
 		for it.Seek(prefix); it.ValidForPrefix(prefix); it.Next() {
+			if it.Item().ExpiresAt() != 0 {
+				// Converted by an earlier transaction.
+				continue
+			}
 			// The transaction keeps the key until commit while the iterator
 			// reuses the item's buffer for a key further ahead (of the next
 			// tables, too): work on a copy.
@@ -43,18 +52,27 @@ var migrations = [dbVersion]MigrationStep{
 				return err
 			}
 			ttl := time.Until(time.Unix(0, nonce).Add(store.ExpireNonce))
+			var err error
 			if ttl <= 0 {
-				if err := txn.Delete(key); err != nil {
-					return err
-				}
-				continue
+				err = txn.Delete(key)
+			} else {
+				// Rounded up, badger expires entries at whole seconds.
+				err = setExpiringItem(txn, key, &nonce, ttl+time.Second)
 			}
-			// Rounded up, badger expires entries at whole seconds.
-			if err := setExpiringItem(txn, key, &nonce, ttl+time.Second); err != nil {
+			if err == badger.ErrTxnTooBig {
+				// The transaction is full, go on in the next one.
+				return ErrMigrationStepAgain
+			}
+			if err != nil {
 				return err
 			}
 		}
 
-		return setVersion(txn, 2)
+		if err := setVersion(txn, 2); err == badger.ErrTxnTooBig {
+			return ErrMigrationStepAgain
+		} else if err != nil {
+			return err
+		}
+		return nil
 	},
 }
